@@ -142,16 +142,11 @@ def package_parts(ps):
         if o['settings']:
             nonempty.append(F + u'settings.xml')
         if o.get('files'):
-            # other files of the sub-document, and a meta.xml of its own (save() writes none for sub-documents: kept as it is)
-            add(F + u'extra.bin', bytes([o['num'] % 256, 9]), u'application/x-thing')
-            add(F + u'Configurations2/menubar.xml', b'<m/>', u'')
-            man.append((F + u'Configurations2/', u'application/vnd.sun.xml.ui.configuration'))
-            add(F + u'meta.xml', pk.new_real(o['kind'], 1000 + o['num'], False).metaxml().encode('utf-8'), u'text/xml')
-            add(F + u'Thumbnails/thumbnail.png', bytes([o['num'] % 256, 1]), u'image/png')
-            add(F + u'ObjectReplacements/Object 1', bytes([o['num'] % 256, 2]), u'application/x-openoffice-gdimetafile')
-            add(F + u'Pictures/sub/deep.png', bytes([o['num'] % 256, 3]), u'image/png')
-            add(F + u'mimetype', pk.KINDS[o['kind']].encode('utf-8'), u'')
-            add(F + u'META-INF/manifest.xml', b'<m/>', u'text/xml')
+            # other files of the sub-document (pk.own_files: own meta.xml, thumbnail, pictures, files named like top-level members ...)
+            fs, ds = pk.own_files(F, 1000 + o['num'], o['kind'])
+            for path, mt_, data in fs:
+                add(path, data, mt_)
+            man.extend(ds)
         for n, mt, hx in o['pics']:
             add(F + n, bytes.fromhex(hx), mt)
         if o['nested']:
@@ -160,6 +155,18 @@ def package_parts(ps):
             np_ = pk.parts_of('text', 2000 + o['num'], False)
             for n in ('content.xml', 'styles.xml'):
                 add(G + n, np_[n], u'text/xml')
+            if o.get('files'):
+                # nesting depth 2 and 3, each level with files of its own under the same relative names
+                H = G + u'Object 3/'
+                man.append((H, pk.KINDS['spreadsheet']))
+                hp = pk.parts_of('spreadsheet', 3000 + o['num'], False)
+                for n in ('content.xml', 'styles.xml'):
+                    add(H + n, hp[n], u'text/xml')
+                for FF, mkk, kk in ((G, 2000 + o['num'], 'text'), (H, 3000 + o['num'], 'spreadsheet')):
+                    fs, ds = pk.own_files(FF, mkk, kk)
+                    for path, mt_, data in fs:
+                        add(path, data, mt_)
+                    man.extend(ds)
     for n, mt, hx in ps['xfiles']:
         add(n, bytes.fromhex(hx), mt)
     for d in ps['xdirs']:
@@ -360,6 +367,10 @@ def gen_cases(chk, n):
     base['xfiles'] = [(n_, t_, '0a0b') for n_, t_ in EXTRA_FILES[:9]]
     yield {'doc': {'kind': base['kind'], 'settings': False, 'thumb': None, 'pics': tricky_pics(5)[:6], 'kids': [
         {'kind': 'text', 'settings': False, 'thumb': None, 'pics': tricky_pics(3), 'kids': []}]}, 'base': base}
+    nb = gen_package(rng)
+    nb['objects'] = [{'num': 1, 'kind': 'text', 'settings': True, 'pics': [(u'Pictures/obj1.png', u'image/png', '010102')], 'nested': True, 'files': True},
+                     {'num': 12, 'kind': 'spreadsheet', 'settings': False, 'pics': [], 'nested': True, 'files': True}]
+    yield {'doc': {'kind': nb['kind'], 'settings': False, 'thumb': None, 'pics': [], 'kids': []}, 'base': nb}
     yield {'doc': {'kind': 'text', 'settings': False, 'thumb': None, 'kids': [],
                    'pics': [{'how': 'file', 'data': '616263', 'mt': None, 'ext': '', 'relpath': u'd.//a'}]}, 'base': None}
     # exhaustive matrix: picture kind x nesting depth of the object that owns it x thumbnail x settings x extras
